@@ -230,10 +230,10 @@ def check(lib, m, fields=None, limit=8):
     ismesh = (t == E.mjGEOM_MESH) | (t == E.mjGEOM_SDF)
     i = _first_bad(ismesh & ((did < -1) | (did >= m.nmesh)))
     if i is not None:
-      add('geom_dataid', i, did[i], 'mesh id not in [-1, nmesh=%d)' % m.nmesh)
+      add('geom_dataid', i, did[i], 'mesh id not in [-1, nmesh=%d)' % m.nmesh, 'branch:mesh')
     i = _first_bad((t == E.mjGEOM_HFIELD) & ((did < -1) | (did >= m.nhfield)))
     if i is not None:
-      add('geom_dataid', i, did[i], 'hfield id not in [-1, nhfield=%d)' % m.nhfield)
+      add('geom_dataid', i, did[i], 'hfield id not in [-1, nhfield=%d)' % m.nhfield, 'branch:hfield')
   if m.nhfield and want('hfield_adr'):
     a, r, c = I('hfield_adr'), I('hfield_nrow'), I('hfield_ncol')
     i = _first_bad((a < 0) | (r < 0) | (c < 0) | (a + r * c > m.nhfielddata))
@@ -267,19 +267,20 @@ def check(lib, m, fields=None, limit=8):
       else:
         add('eq_type', i, ty[i], 'unsupported equality type')
         continue
+      br = 'branch:eqtype%d' % ty[i] + (':objtype%d' % ot[i] if ty[i] in (E.mjEQ_CONNECT, E.mjEQ_WELD) else '')
       if n == -2:
         add('eq_objtype', i, ot[i], 'not an object type')
       elif not 0 <= o1[i] < n:
-        add('eq_obj1id', i, o1[i], 'not in [0, %d)' % n)
+        add('eq_obj1id', i, o1[i], 'not in [0, %d)' % n, br)
       elif not lo2 <= o2[i] < n:
-        add('eq_obj2id', i, o2[i], 'not in [%d, %d)' % (lo2, n))
+        add('eq_obj2id', i, o2[i], 'not in [%d, %d)' % (lo2, n), br)
   if m.nwrap and want('wrap_objid'):
     ty, o = I('wrap_type'), I('wrap_objid')
     for tt, n in ((E.mjWRAP_JOINT, m.njnt), (E.mjWRAP_SITE, m.nsite), (E.mjWRAP_SPHERE, m.ngeom),
                   (E.mjWRAP_CYLINDER, m.ngeom)):
       i = _first_bad((ty == tt) & ((o < 0) | (o >= n)))
       if i is not None:
-        add('wrap_objid', i, o[i], 'wrap object id not in [0, %d)' % n)
+        add('wrap_objid', i, o[i], 'wrap object id not in [0, %d)' % n, 'branch:wraptype%d' % tt)
     i = _first_bad((ty < 0) | (ty > E.mjWRAP_CYLINDER))
     if i is not None:
       add('wrap_type', i, ty[i], 'not an mjtWrap')
@@ -288,26 +289,31 @@ def check(lib, m, fields=None, limit=8):
     for i in range(m.nactuator):
       a, b = tr[i]
       t = ty[i]
-      bad = None
+      bad = bad2 = None
       if t in (E.mjTRN_JOINT, E.mjTRN_JOINTINPARENT):
         bad = not 0 <= a < m.njnt
       elif t == E.mjTRN_TENDON:
         bad = not 0 <= a < m.ntendon
       elif t == E.mjTRN_SITE:
-        bad = not 0 <= a < m.nsite or not -1 <= b < m.nsite
+        bad, bad2 = not 0 <= a < m.nsite, not -1 <= b < m.nsite
       elif t == E.mjTRN_SLIDERCRANK:
-        bad = not 0 <= a < m.nsite or not 0 <= b < m.nsite
+        bad, bad2 = not 0 <= a < m.nsite, not 0 <= b < m.nsite
       elif t == E.mjTRN_BODY:
         bad = not 0 <= a < m.nbody
       elif t == getattr(E, 'mjTRN_SO3', -99):
-        bad = (not 0 <= a < m.njnt) if b == -1 else (not 0 <= a < m.nsite or not 0 <= b < m.nsite)
+        if b == -1:
+          bad = not 0 <= a < m.njnt
+        else:
+          bad, bad2 = not 0 <= a < m.nsite, not 0 <= b < m.nsite
       elif t == E.mjTRN_UNDEFINED:
         bad = False
       else:
         add('actuator_trntype', i, t, 'not an mjtTrn')
         continue
-      if bad:
-        add('actuator_trnid', i, a, 'transmission target (%d,%d) out of range for trntype %d' % (a, b, t))
+      if bad or bad2:
+        add('actuator_trnid', 2 * i + (0 if bad else 1), a if bad else b,
+            'transmission target (%d,%d) out of range for trntype %d' % (a, b, t),
+            'branch:trntype%d:%s' % (t, 'first' if bad else 'second'))
         break
   for pre, n in (('actuator', 'nactuator'), ('sensor', 'nsensor')):
     f = pre + '_historyadr'
@@ -324,12 +330,12 @@ def check(lib, m, fields=None, limit=8):
       if n == -2:
         add('sensor_objtype', i, ot[i], 'not an object type')
       elif n is not None and not 0 <= oi[i] < n:
-        add('sensor_objid', i, oi[i], 'not in [0, %d)' % n)
+        add('sensor_objid', i, oi[i], 'not in [0, %d)' % n, 'branch:objtype%d' % ot[i])
       n = objcount(lib, m, int(rt[i]))
       if n == -2:
         add('sensor_reftype', i, rt[i], 'not an object type')
       elif n is not None and not -1 <= ri[i] < n:
-        add('sensor_refid', i, ri[i], 'not in [-1, %d)' % n)
+        add('sensor_refid', i, ri[i], 'not in [-1, %d)' % n, 'branch:reftype%d' % rt[i])
       if ad[i] < 0 or dm[i] < 0 or ad[i] + dm[i] > m.nsensordata:
         add('sensor_adr', i, ad[i], 'sensor output [adr, adr+dim=%d) outside [0, nsensordata=%d)' % (dm[i], m.nsensordata))
       if len(out) >= limit:
@@ -344,7 +350,7 @@ def check(lib, m, fields=None, limit=8):
         if n == -2:
           add('tuple_objtype', j, ot[j], 'not an object type')
         elif n is not None and not 0 <= oi[j] < n:
-          add('tuple_objid', j, oi[j], 'not in [0, %d)' % n)
+          add('tuple_objid', j, oi[j], 'not in [0, %d)' % n, 'branch:objtype%d' % ot[j])
   if m.nmesh and (want('mesh_face') or want('mesh_facetexcoord')):
     va, vn, fa, fn = I('mesh_vertadr'), I('mesh_vertnum'), I('mesh_faceadr'), I('mesh_facenum')
     tn = I('mesh_texcoordnum')
